@@ -184,6 +184,7 @@ inductive Op where
   | remove (u : Nat)
   | detach (u : Nat)                       -- `parent.remove_children([e])`: no permission check
   | setAllowDelete (u : Nat) (b : Bool)
+  | setTyp (u typ : Nat)                   -- `entity.entity_type = t`: the node's type link
   | copy (u newParent : Nat) (idmap : List (Nat × Nat))
   | pgSet (obj : Nat) (g : PG)             -- create or replace a property group
   | pgDrop (obj pg : Nat)
@@ -227,6 +228,8 @@ def step (t : Tree) : Op → Tree × Out
       else ((t.erase u).mapEnts (cleanPGs s.uids), .ok)
   | .setAllowDelete u b =>
     if t.uids.contains u then (t.update (fun e => { e with allowDelete := b }) u, .ok) else (t, .missing)
+  | .setTyp u ty =>
+    if t.uids.contains u then (t.update (fun e => { e with typ := ty }) u, .ok) else (t, .missing)
   | .copy u p m =>
     match t.findSub u with
     | none => (t, .missing)
